@@ -273,7 +273,16 @@ def l6(ctx: Ctx):
     # user strings are always emitted inside quotes, and cannot contain a quote themselves
     lit = py.resolve_method("BasicLiteral", "basic09_text")
     ctx.need(lit is not None, "BasicLiteral.basic09_text", "not found")
-    okq = "f'\"{self._literal}\"' if type(self._literal) is str" in unparse(lit[1])
+    # decided on the text of two literal objects: a string is emitted between double quotes, a number is not
+    from .absint import Const as _Const, interp as _interp
+    from .rules_expr import _render as _rnd
+
+    I_ = _interp(ctx)
+    got_q = set()
+    for val_ in ("ABC", 1.5):
+        o_ = I_.construct("BasicLiteral", [_Const(val_)], {}, 0, "BasicLiteral")
+        got_q.add((repr(val_), tuple(sorted(_rnd(I_.call_function(lit[1], [o_, _Const(0)], self_obj=o_, owner=lit[0].name))))))
+    okq = got_q == {("'ABC'", ('"ABC"',)), ("1.5", ("1.5",))}
     ctx.ob("strings-quoted", okq, "" if okq else "string literals are no longer emitted between double quotes", file="coco/b09/elements.py", line=lit[1].lineno, props=["C13", "C07"])
     g = peg(ctx)
     anyq = Lang.from_regex(r'(?:.|\n)*"(?:.|\n)*')
